@@ -62,9 +62,11 @@ Print Assumptions c12_terminates.
 
 (* tie: the source's _send is the program these theorems are about; the lock is a plain threading.Lock and the queue a fresh list,
    each assigned exactly once, unconditionally, in __init__; no other method of Connection and no other module touches the queue,
-   the lock or the channel's send (every outgoing frame goes through _send) *)
+   the lock or the channel's send; anywhere in the package a connection's `_channel` is only tested, closed, polled or read -
+   never sent to, aliased or handed on (every outgoing frame goes through _send) *)
 Theorem c12_program_is_current : Gen_sendq.send_prog = SendQ.prog /\ Gen_sendq.sendlock_is_plain_lock = true
-  /\ Gen_sendq.send_queue_is_fresh_list = true /\ Gen_sendq.send_state_private_to_send = true /\ Gen_sendq.send_state_untouched_elsewhere = true.
+  /\ Gen_sendq.send_queue_is_fresh_list = true /\ Gen_sendq.send_state_private_to_send = true /\ Gen_sendq.send_state_untouched_elsewhere = true
+  /\ Gen_sendq.channel_written_only_by_send = true.
 Proof. split; [exact tie_prog|exact tie_lock]. Qed.
 Print Assumptions c12_program_is_current.
 
